@@ -302,7 +302,7 @@ theorem handlePayload_dag (n : Node) (ref : Ref) (data : Option Payload) :
         · rfl
         · split
           · rfl
-          · simp only; split <;> rfl
+          · rfl
 
 /-- a valid DAG, newest first: every transaction has a good signature verdict, is new, has all its prevs before it,
     carries the right clock, and there is at most one root -/
@@ -803,8 +803,7 @@ theorem handle_out_txs (cfg : Cfg) (env : Env) (n : Node) (peer : Peer) (m : Msg
             · rfl
             · split
               · rfl
-              · simp only
-                split <;> rfl
+              · rfl
     simp only [handle, this] at ho
     cases ho
   | diagnostics => simp [handle] at ho
